@@ -335,5 +335,355 @@ def CodeLayout.facts (c : CodeLayout) : Code :=
     lastLabel := none,
     lines := linesOf c.attrs, locals := localsOf c.attrs, rvta := [], ritva := [], attrs := unknownsOf c.attrs }
 
+/-! ## constant pool -/
+
+/-- `cp_info` (JVMS §4.4) -/
+def encPoolEntry : PoolEntry → Bytes
+  | .utf8 s => 1 :: (be16 (Mutf8.encode s).length ++ Mutf8.encode s)
+  | .int v => 3 :: be32 (ofI32 v)
+  | .float b => 4 :: be32 b
+  | .long v => 5 :: be64 (ofI64 v)
+  | .double b => 6 :: be64 b
+  | .cls i => 7 :: be16 i
+  | .str i => 8 :: be16 i
+  | .fieldRef c n => 9 :: (be16 c ++ be16 n)
+  | .methodRef c n => 10 :: (be16 c ++ be16 n)
+  | .ifaceMethodRef c n => 11 :: (be16 c ++ be16 n)
+  | .nameAndType n d => 12 :: (be16 n ++ be16 d)
+  | .methodHandle k i => 15 :: k :: be16 i
+  | .methodType d => 16 :: be16 d
+  | .dynamic b n => 17 :: (be16 b ++ be16 n)
+  | .invokeDynamic b n => 18 :: (be16 b ++ be16 n)
+  | .module i => 19 :: be16 i
+  | .package i => 20 :: be16 i
+
+/-- `Long` and `Double` take two slots -/
+def poolSlots : PoolEntry → Nat
+  | .long _ => 2
+  | .double _ => 2
+  | _ => 1
+
+def inI64 (v : Int) : Prop := -9223372036854775808 ≤ v ∧ v < 9223372036854775808
+
+/-- the fields of an entry fit their widths; strings are encodable and shorter than 65536 bytes -/
+def PoolEntryOk : PoolEntry → Prop
+  | .utf8 s => Mutf8.Encodable s = true ∧ (Mutf8.encode s).length < 65536
+  | .int v => inI32 v
+  | .float b => b < 4294967296
+  | .long v => inI64 v
+  | .double b => b < 18446744073709551616
+  | .cls i => i < 65536
+  | .str i => i < 65536
+  | .fieldRef c n => c < 65536 ∧ n < 65536
+  | .methodRef c n => c < 65536 ∧ n < 65536
+  | .ifaceMethodRef c n => c < 65536 ∧ n < 65536
+  | .nameAndType n d => n < 65536 ∧ d < 65536
+  | .methodHandle k i => k < 256 ∧ i < 65536
+  | .methodType d => d < 65536
+  | .dynamic b n => b < 65536 ∧ n < 65536
+  | .invokeDynamic b n => b < 65536 ∧ n < 65536
+  | .module i => i < 65536
+  | .package i => i < 65536
+
+/-- the slots the entries occupy, after slot 0 -/
+def poolSlotsOf (es : List PoolEntry) : List (Option PoolEntry) :=
+  es.flatMap (fun e => if poolSlots e = 2 then [some e, none] else [some e])
+
+/-- the indexable table a list of entries denotes: slot 0 and the slot after a `Long`/`Double` are unusable -/
+def poolTable (es : List PoolEntry) : Pool := none :: poolSlotsOf es
+
+def poolCount (es : List PoolEntry) : Nat := 1 + (es.map poolSlots).sum
+
+/-- `constant_pool_count` and the entries -/
+def encPool (es : List PoolEntry) : Bytes := be16 (poolCount es) ++ es.flatMap encPoolEntry
+
+/-! ## attributes of fields, methods and the class; the class file -/
+
+/-- `attributes_count` and the attributes, each framed by name index and length -/
+def encAttrs (as : List (Nat × Bytes)) : Bytes := be16 as.length ++ as.flatMap (fun a => attrFrame a.1 a.2)
+
+/-- names with a meaning on a field -/
+def fieldAttrNames : List JStr := [sDeprecated, sSynthetic, sConstantValue, sSignature, sRVA, sRIA, sRVTA, sRITA]
+/-- names with a meaning on a method -/
+def methodAttrNames : List JStr :=
+  [sDeprecated, sSynthetic, sCode, sExceptions, sSignature, sRVA, sRIA, sRVTA, sRITA, sRVPA, sRIPA, sAnnotationDefault, sMethodParameters]
+/-- names with a meaning on a class -/
+def classAttrNames : List JStr :=
+  [sDeprecated, sSynthetic, sInnerClasses, sEnclosingMethod, sSignature, sSourceFile, sSourceDebugExtension, sRVA, sRIA, sRVTA,
+   sRITA, sModule, sModulePackages, sModuleMainClass, sNestHost, sNestMembers, sPermittedSubclasses, sRecord, sBootstrapMethods]
+
+/-- field attributes of the proved fragment (`nc` = pool index of the attribute name) -/
+inductive SFieldAttr where
+  | deprecated (nc : Nat)
+  | synthetic (nc : Nat)
+  | constantValue (nc cp : Nat) (v : ConstantValue)
+  | signature (nc cp : Nat) (sig : JStr)
+  | unknown (nc : Nat) (name : JStr) (bytes : Bytes)
+  deriving Inhabited
+
+def SFieldAttr.raw : SFieldAttr → Nat × Bytes
+  | .deprecated nc => (nc, [])
+  | .synthetic nc => (nc, [])
+  | .constantValue nc cp _ => (nc, be16 cp)
+  | .signature nc cp _ => (nc, be16 cp)
+  | .unknown nc _ b => (nc, b)
+
+def SFieldAttr.Legal (p : Pool) : SFieldAttr → Prop
+  | .deprecated nc => nc < 65536 ∧ p.getUtf8 nc = .ok sDeprecated
+  | .synthetic nc => nc < 65536 ∧ p.getUtf8 nc = .ok sSynthetic
+  | .constantValue nc cp v => nc < 65536 ∧ p.getUtf8 nc = .ok sConstantValue ∧ cp < 65536 ∧ p.getConstantValue cp = .ok v
+  | .signature nc cp sig => nc < 65536 ∧ p.getUtf8 nc = .ok sSignature ∧ cp < 65536 ∧ p.getUtf8 cp = .ok sig
+  | .unknown nc name b => nc < 65536 ∧ p.getUtf8 nc = .ok name ∧ name ∉ fieldAttrNames ∧ b.length < 4294967296
+
+/-- what an attribute adds to the description of the field; `none`: a second `ConstantValue` / `Signature` -/
+def SFieldAttr.apply (f : FieldFacts) : SFieldAttr → Option FieldFacts
+  | .deprecated _ => some { f with deprecated := true }
+  | .synthetic _ => some { f with synthetic := true }
+  | .constantValue _ _ v => if f.constant.isNone then some { f with constant := some v } else none
+  | .signature _ _ sig => if f.signature.isNone then some { f with signature := some sig } else none
+  | .unknown _ name b => some { f with attrs := f.attrs ++ [⟨name, b⟩] }
+
+def applyAll {σ α : Type} (step : σ → α → Option σ) : σ → List α → Option σ
+  | st, [] => some st
+  | st, a :: as => match step st a with
+    | some st' => applyAll step st' as
+    | none => none
+
+structure FieldLayout where
+  access : Nat
+  nameCp : Nat
+  name : JStr
+  descCp : Nat
+  desc : JStr
+  attrs : List SFieldAttr
+  deriving Inhabited
+
+def FieldLayout.encode (f : FieldLayout) : Bytes :=
+  be16 f.access ++ be16 f.nameCp ++ be16 f.descCp ++ encAttrs (f.attrs.map SFieldAttr.raw)
+
+def FieldLayout.Legal (p : Pool) (f : FieldLayout) : Prop :=
+  f.access < 65536 ∧ f.nameCp < 65536 ∧ f.descCp < 65536 ∧ p.getUtf8 f.nameCp = .ok f.name ∧ validUnqualified f.name = true ∧
+    p.getUtf8 f.descCp = .ok f.desc ∧ f.attrs.length < 65536 ∧ ∀ a ∈ f.attrs, a.Legal p
+
+def FieldLayout.facts (f : FieldLayout) : Option FieldFacts :=
+  applyAll SFieldAttr.apply ⟨f.access &&& maskField, f.name, f.desc, false, false, none, none, [], [], [], [], []⟩ f.attrs
+
+/-- method attributes of the proved fragment -/
+inductive SMethodAttr where
+  | deprecated (nc : Nat)
+  | synthetic (nc : Nat)
+  | code (nc : Nat) (c : CodeLayout)
+  | exceptions (nc : Nat) (cps : List Nat) (names : List JStr)
+  | signature (nc cp : Nat) (sig : JStr)
+  | unknown (nc : Nat) (name : JStr) (bytes : Bytes)
+  deriving Inhabited
+
+def SMethodAttr.raw : SMethodAttr → Nat × Bytes
+  | .deprecated nc => (nc, [])
+  | .synthetic nc => (nc, [])
+  | .code nc c => (nc, c.encode)
+  | .exceptions nc cps _ => (nc, be16 cps.length ++ cps.flatMap be16)
+  | .signature nc cp _ => (nc, be16 cp)
+  | .unknown nc _ b => (nc, b)
+
+def SMethodAttr.Legal (p : Pool) (bsms : Option (List Bsm)) : SMethodAttr → Prop
+  | .deprecated nc => nc < 65536 ∧ p.getUtf8 nc = .ok sDeprecated
+  | .synthetic nc => nc < 65536 ∧ p.getUtf8 nc = .ok sSynthetic
+  | .code nc c => nc < 65536 ∧ p.getUtf8 nc = .ok sCode ∧ c.Legal p bsms ∧ c.encode.length < 4294967296
+  | .exceptions nc cps names => nc < 65536 ∧ p.getUtf8 nc = .ok sExceptions ∧ cps.length < 65536 ∧ cps.length = names.length ∧
+      ∀ x ∈ cps.zip names, x.1 < 65536 ∧ p.getClass x.1 = .ok x.2
+  | .signature nc cp sig => nc < 65536 ∧ p.getUtf8 nc = .ok sSignature ∧ cp < 65536 ∧ p.getUtf8 cp = .ok sig
+  | .unknown nc name b => nc < 65536 ∧ p.getUtf8 nc = .ok name ∧ name ∉ methodAttrNames ∧ b.length < 4294967296
+
+def SMethodAttr.apply (m : MethodFacts) : SMethodAttr → Option MethodFacts
+  | .deprecated _ => some { m with deprecated := true }
+  | .synthetic _ => some { m with synthetic := true }
+  | .code _ c => if m.code.isNone then some { m with code := some c.facts } else none
+  | .exceptions _ _ names => if m.exceptions.isNone then some { m with exceptions := some names } else none
+  | .signature _ _ sig => if m.signature.isNone then some { m with signature := some sig } else none
+  | .unknown _ name b => some { m with attrs := m.attrs ++ [⟨name, b⟩] }
+
+structure MethodLayout where
+  access : Nat
+  nameCp : Nat
+  name : JStr
+  descCp : Nat
+  desc : JStr
+  attrs : List SMethodAttr
+  deriving Inhabited
+
+def MethodLayout.encode (m : MethodLayout) : Bytes :=
+  be16 m.access ++ be16 m.nameCp ++ be16 m.descCp ++ encAttrs (m.attrs.map SMethodAttr.raw)
+
+def MethodLayout.Legal (p : Pool) (bsms : Option (List Bsm)) (m : MethodLayout) : Prop :=
+  m.access < 65536 ∧ m.nameCp < 65536 ∧ m.descCp < 65536 ∧ p.getUtf8 m.nameCp = .ok m.name ∧ validMethodName m.name = true ∧
+    p.getUtf8 m.descCp = .ok m.desc ∧ m.attrs.length < 65536 ∧ ∀ a ∈ m.attrs, a.Legal p bsms
+
+def MethodLayout.facts (m : MethodLayout) : Option MethodFacts :=
+  applyAll SMethodAttr.apply
+    ⟨m.access &&& maskMethod, m.name, m.desc, false, false, none, none, none, [], [], [], [], none, none, []⟩ m.attrs
+
+/-- one `InnerClasses` entry with the pool indices used -/
+structure SInner where
+  innerCp : Nat
+  inner : JStr
+  outerCp : Nat
+  outer : Option JStr
+  nameCp : Nat
+  name : Option JStr
+  flags : Nat
+  deriving Inhabited
+
+/-- one bootstrap method: handle index, the handle it resolves to, raw argument indices -/
+structure SBsm where
+  handleCp : Nat
+  handle : Handle
+  args : List Nat
+  deriving Inhabited
+
+/-- class attributes of the proved fragment -/
+inductive SClassAttr where
+  | deprecated (nc : Nat)
+  | synthetic (nc : Nat)
+  | sourceFile (nc cp : Nat) (s : JStr)
+  | signature (nc cp : Nat) (sig : JStr)
+  | innerClasses (nc : Nat) (es : List SInner)
+  | enclosingMethod (nc clsCp : Nat) (cls : JStr) (mCp : Nat) (m : Option (JStr × JStr))
+  | nestHost (nc cp : Nat) (c : JStr)
+  | nestMembers (nc : Nat) (cps : List Nat) (names : List JStr)
+  | permittedSubclasses (nc : Nat) (cps : List Nat) (names : List JStr)
+  | bootstrapMethods (nc : Nat) (ms : List SBsm)
+  | unknown (nc : Nat) (name : JStr) (bytes : Bytes)
+  deriving Inhabited
+
+def SInner.encode (e : SInner) : Bytes := be16 e.innerCp ++ be16 e.outerCp ++ be16 e.nameCp ++ be16 e.flags
+def SBsm.encode (m : SBsm) : Bytes := be16 m.handleCp ++ be16 m.args.length ++ m.args.flatMap be16
+
+def SClassAttr.raw : SClassAttr → Nat × Bytes
+  | .deprecated nc => (nc, [])
+  | .synthetic nc => (nc, [])
+  | .sourceFile nc cp _ => (nc, be16 cp)
+  | .signature nc cp _ => (nc, be16 cp)
+  | .innerClasses nc es => (nc, be16 es.length ++ es.flatMap SInner.encode)
+  | .enclosingMethod nc clsCp _ mCp _ => (nc, be16 clsCp ++ be16 mCp)
+  | .nestHost nc cp _ => (nc, be16 cp)
+  | .nestMembers nc cps _ => (nc, be16 cps.length ++ cps.flatMap be16)
+  | .permittedSubclasses nc cps _ => (nc, be16 cps.length ++ cps.flatMap be16)
+  | .bootstrapMethods nc ms => (nc, be16 ms.length ++ ms.flatMap SBsm.encode)
+  | .unknown nc _ b => (nc, b)
+
+def SInner.Legal (p : Pool) (e : SInner) : Prop :=
+  e.innerCp < 65536 ∧ e.outerCp < 65536 ∧ e.nameCp < 65536 ∧ e.flags < 65536 ∧ p.getClass e.innerCp = .ok e.inner ∧
+    p.getOptional e.outerCp Pool.getClass = .ok e.outer ∧ p.getOptional e.nameCp Pool.getUtf8 = .ok e.name
+
+def SBsm.Legal (p : Pool) (m : SBsm) : Prop :=
+  m.handleCp < 65536 ∧ p.getMethodHandle m.handleCp = .ok m.handle ∧ m.args.length < 65536 ∧ ∀ a ∈ m.args, a < 65536
+
+def classRefsLegal (p : Pool) (cps : List Nat) (names : List JStr) : Prop :=
+  cps.length < 65536 ∧ cps.length = names.length ∧ ∀ x ∈ cps.zip names, x.1 < 65536 ∧ p.getClass x.1 = .ok x.2
+
+def SClassAttr.Legal (p : Pool) : SClassAttr → Prop
+  | .deprecated nc => nc < 65536 ∧ p.getUtf8 nc = .ok sDeprecated
+  | .synthetic nc => nc < 65536 ∧ p.getUtf8 nc = .ok sSynthetic
+  | .sourceFile nc cp s => nc < 65536 ∧ p.getUtf8 nc = .ok sSourceFile ∧ cp < 65536 ∧ p.getUtf8 cp = .ok s
+  | .signature nc cp sig => nc < 65536 ∧ p.getUtf8 nc = .ok sSignature ∧ cp < 65536 ∧ p.getUtf8 cp = .ok sig
+  | .innerClasses nc es => nc < 65536 ∧ p.getUtf8 nc = .ok sInnerClasses ∧ es.length < 65536 ∧ ∀ e ∈ es, e.Legal p
+  | .enclosingMethod nc clsCp cls mCp m => nc < 65536 ∧ p.getUtf8 nc = .ok sEnclosingMethod ∧ clsCp < 65536 ∧ mCp < 65536 ∧
+      p.getClass clsCp = .ok cls ∧ p.getOptional mCp Pool.getMethodNameAndType = .ok m
+  | .nestHost nc cp c => nc < 65536 ∧ p.getUtf8 nc = .ok sNestHost ∧ cp < 65536 ∧ p.getClass cp = .ok c
+  | .nestMembers nc cps names => nc < 65536 ∧ p.getUtf8 nc = .ok sNestMembers ∧ classRefsLegal p cps names
+  | .permittedSubclasses nc cps names => nc < 65536 ∧ p.getUtf8 nc = .ok sPermittedSubclasses ∧ classRefsLegal p cps names
+  | .bootstrapMethods nc ms => nc < 65536 ∧ p.getUtf8 nc = .ok sBootstrapMethods ∧ ms.length < 65536 ∧ (∀ m ∈ ms, m.Legal p) ∧
+      (be16 ms.length ++ ms.flatMap SBsm.encode).length < 4294967296
+  | .unknown nc name b => nc < 65536 ∧ p.getUtf8 nc = .ok name ∧ name ∉ classAttrNames ∧ b.length < 4294967296
+
+/-- the description of the class so far and the bootstrap table -/
+abbrev ClassAcc := ClassFacts × Option (List Bsm)
+
+def SClassAttr.apply (st : ClassAcc) : SClassAttr → Option ClassAcc
+  | .deprecated _ => some ({ st.1 with deprecated := true }, st.2)
+  | .synthetic _ => some ({ st.1 with synthetic := true }, st.2)
+  | .sourceFile _ _ s => if st.1.sourceFile.isNone then some ({ st.1 with sourceFile := some s }, st.2) else none
+  | .signature _ _ s => if st.1.signature.isNone then some ({ st.1 with signature := some s }, st.2) else none
+  | .innerClasses _ es =>
+    if st.1.innerClasses.isNone then
+      some ({ st.1 with innerClasses := some (es.map fun e => ⟨e.inner, e.outer, e.name, e.flags &&& maskInner⟩) }, st.2)
+    else none
+  | .enclosingMethod _ _ cls _ m =>
+    if st.1.enclosingMethod.isNone then some ({ st.1 with enclosingMethod := some (cls, m) }, st.2) else none
+  | .nestHost _ _ c => if st.1.nestHost.isNone then some ({ st.1 with nestHost := some c }, st.2) else none
+  | .nestMembers _ _ names => if st.1.nestMembers.isNone then some ({ st.1 with nestMembers := some names }, st.2) else none
+  | .permittedSubclasses _ _ names =>
+    if st.1.permittedSubclasses.isNone then some ({ st.1 with permittedSubclasses := some names }, st.2) else none
+  | .bootstrapMethods _ ms => if st.2.isNone then some (st.1, some (ms.map fun m => ⟨m.handle, m.args⟩)) else none
+  | .unknown _ name b => some ({ st.1 with attrs := st.1.attrs ++ [⟨name, b⟩] }, st.2)
+
+structure ClassLayout where
+  minor : Nat
+  major : Nat
+  pool : List PoolEntry
+  access : Nat
+  thisCp : Nat
+  name : JStr
+  superCp : Nat
+  super : Option JStr
+  interfaces : List (Nat × JStr)
+  fields : List FieldLayout
+  methods : List MethodLayout
+  attrs : List SClassAttr
+  deriving Inhabited
+
+/-- the `ClassFile` structure (JVMS §4.1) -/
+def ClassLayout.encode (c : ClassLayout) : Bytes :=
+  be32 0xCAFEBABE ++ be16 c.minor ++ be16 c.major ++ encPool c.pool ++ be16 c.access ++ be16 c.thisCp ++ be16 c.superCp
+    ++ be16 c.interfaces.length ++ c.interfaces.flatMap (fun i => be16 i.1)
+    ++ be16 c.fields.length ++ c.fields.flatMap FieldLayout.encode
+    ++ be16 c.methods.length ++ c.methods.flatMap MethodLayout.encode
+    ++ encAttrs (c.attrs.map SClassAttr.raw)
+
+def ClassLayout.base (c : ClassLayout) : ClassFacts :=
+  { minor := c.minor, major := c.major, access := c.access &&& maskClass, name := c.name, super := c.super,
+    interfaces := c.interfaces.map (·.2), fields := [], methods := [], deprecated := false, synthetic := false,
+    innerClasses := none, enclosingMethod := none, signature := none, sourceFile := none,
+    sourceDebugExtension := none, rva := [], ria := [], rvta := [], rita := [], module := none,
+    modulePackages := none, moduleMainClass := none, nestHost := none, nestMembers := none,
+    permittedSubclasses := none, recordComponents := [], attrs := [] }
+
+def mapOpt {α β : Type} (f : α → Option β) : List α → Option (List β)
+  | [] => some []
+  | a :: r => match f a, mapOpt f r with
+    | some b, some bs => some (b :: bs)
+    | _, _ => none
+
+/-- the label-free facts the layout denotes (`none`: a single-instance attribute occurs twice) -/
+def ClassLayout.facts (c : ClassLayout) : Option ClassFacts :=
+  match applyAll SClassAttr.apply (c.base, none) c.attrs, mapOpt FieldLayout.facts c.fields, mapOpt MethodLayout.facts c.methods with
+  | some (cf, _), some fs, some ms => some { cf with fields := fs, methods := ms }
+  | _, _, _ => none
+
+/-- the bootstrap table the class attributes establish -/
+def ClassLayout.bsms (c : ClassLayout) : Option (List Bsm) :=
+  match applyAll SClassAttr.apply (c.base, none) c.attrs with
+  | some (_, b) => b
+  | none => none
+
+structure ClassLayout.Legal (c : ClassLayout) : Prop where
+  version : c.minor < 65536 ∧ c.major < 65536 ∧ (c.major < 67 ∨ (c.major = 67 ∧ c.minor = 0))
+  poolOk : ∀ e ∈ c.pool, PoolEntryOk e
+  poolCount : poolCount c.pool < 65536
+  access : c.access < 65536
+  this : c.thisCp < 65536 ∧ (poolTable c.pool).getObjClass c.thisCp = .ok c.name
+  super : c.superCp < 65536 ∧ (poolTable c.pool).getOptional c.superCp Pool.getObjClass = .ok c.super
+  nInterfaces : c.interfaces.length < 65536
+  interfaces : ∀ i ∈ c.interfaces, i.1 < 65536 ∧ (poolTable c.pool).getObjClass i.1 = .ok i.2
+  nFields : c.fields.length < 65536
+  fields : ∀ f ∈ c.fields, f.Legal (poolTable c.pool)
+  nMethods : c.methods.length < 65536
+  methods : ∀ m ∈ c.methods, m.Legal (poolTable c.pool) c.bsms
+  nAttrs : c.attrs.length < 65536
+  attrs : ∀ a ∈ c.attrs, a.Legal (poolTable c.pool)
+  /-- single-instance attributes occur at most once -/
+  unique : c.facts.isSome = true
+
 end Spec
 end ClassRead
